@@ -1,5 +1,6 @@
 pub mod autoutil;
 pub mod deep;
+pub mod ladder;
 pub mod rectx;
 pub mod scale;
 pub mod selftest;
@@ -96,6 +97,9 @@ fn replay_one(prop: &str, kind: &str, text: &str, seed: u64, rep: &mut Report) -
             return true;
         }
         return false;
+    }
+    if kind == "ladder" {
+        return ladder::replay(text, seed, rep);
     }
     if kind == "shard" {
         // "shard K of N seed S": re-run that whole shard (quick tier)
